@@ -53,4 +53,6 @@ def mix(rng, n, T=16, C=8, io=4, hi=3, kinds=None, sizes=None, attempts=2):
         spec['client'] = {'checksum': rng.choice(['when_supported', 'when_required']), 'scheme': rng.choice(['https', 'http'])}
     if n > 1 and rng.random() < 0.15:
         spec['concurrent_submit'] = True  # every manager call from its own user thread
+    if rng.random() < 0.1:
+        spec['debug_log'] = True  # the package's loggers at DEBUG
     return spec
